@@ -14,7 +14,10 @@ import (
 	"github.com/markusressel/fan2go/internal"
 	"github.com/markusressel/fan2go/internal/configuration"
 	"github.com/markusressel/fan2go/internal/sensors"
+	"github.com/markusressel/fan2go/internal/statistics"
 	"github.com/markusressel/fan2go/internal/util"
+	"github.com/prometheus/client_golang/prometheus"
+	"time"
 )
 
 // C08 — sensor smoothing stays within observed readings, converges, ignores failed reads.
@@ -387,6 +390,10 @@ func init() {
 			}
 			checkC08(ctx, rigs["cmd"], c)
 		}
+		// the monitor's poll while a Prometheus scrape reads the same command sensor
+		for i, ns := 0, ctx.N(3, 30); i < ns; i++ {
+			c08WhileScraped(ctx, rigs["cmd"], r)
+		}
 		// command time-outs (2 s each): a few, only in batch 0 resp. spread in thorough
 		nt := 0
 		if ctx.Batch < 4 {
@@ -405,6 +412,57 @@ func init() {
 			ctx.Inconclusive(fmt.Sprintf("%d healthy commands ran into fan2go's wall-clock limits for commands: the machine is too loaded for the cmd part of this check", n))
 		}
 	})
+}
+
+// c08WhileScraped: with statistics enabled every Prometheus scrape reads each sensor itself (the real
+// statistics.SensorCollector). A slow command sensor is then being read by the scrape when the monitor's poll comes:
+// the poll's outcome must be the same as without the scrape - a failing / garbage / non-finite read leaves the
+// smoothed value bit-identical, a good one keeps it between the old value and the reading.
+func c08WhileScraped(ctx *Ctx, rig *c08Rig, r *rand.Rand) {
+	kind := pick(r, "exit1", "garbage", "nan", "empty", "exit1", "ok")
+	window := pick(r, 1, 2, 10)
+	configuration.CurrentConfig.TempRollingWindowSize = window
+	s := rig.sensor
+	init := float64(30000 + r.Intn(30000))
+	s.SetMovingAvg(init)
+	e := c08Elem{Kind: kind, Val: float64(60000 + r.Intn(1000)*4)}
+	rig.present(e)
+	_ = os.WriteFile(rig.path+".sleep", []byte("0.4\n"), 0644)
+	c := map[string]interface{}{"scenario": "poll-while-a-prometheus-scrape-reads-the-sensor", "window": window, "init": init, "read": e}
+	col := statistics.NewSensorCollector([]sensors.Sensor{s})
+	ch := make(chan prometheus.Metric, 8)
+	done := make(chan string, 1)
+	go func() {
+		_, msg := Guard(func() { col.Collect(ch) })
+		done <- msg
+	}()
+	time.Sleep(120 * time.Millisecond) // the scrape's command is running now
+	before := s.GetMovingAvg()
+	var err error
+	panicked, msg := Guard(func() { err = internal.VerifUpdateSensor(s) })
+	ctx.Eval(1)
+	after := s.GetMovingAvg()
+	select {
+	case m := <-done:
+		if m != "" {
+			ctx.Violation("panic-in-scrape-of-a-command-sensor:"+kind, m, c)
+		}
+	case <-time.After(30 * time.Second):
+		ctx.Inconclusive("a scrape of a command sensor did not return within 30 s")
+	}
+	if panicked {
+		ctx.Violation("panic-in-sensor-update:cmd:while-scraped:"+kind, msg, c)
+		return
+	}
+	ctx.Count("polls_while_a_scrape_reads_the_sensor", 1)
+	if e.fault() {
+		if math.Float64bits(after) != math.Float64bits(before) {
+			ctx.Violation("failed-read-changed-average:cmd:while-scraped:"+kind, fmt.Sprintf("%s: smoothed value %v -> %v (poll returned error %v)", jsonStr(c), before, after, err), c)
+		}
+	} else if lo, hi := math.Min(before, e.Val), math.Max(before, e.Val); after < lo-ulpTau(hi) || after > hi+ulpTau(hi) {
+		ctx.Violation("average-outside-hull:cmd:while-scraped", fmt.Sprintf("%s: smoothed value %v -> %v", jsonStr(c), before, after), c)
+	}
+	ctx.Nontrivial(fmt.Sprintf("scraped|%s|%d", kind, window))
 }
 
 func c08TimeLimitError(err error) bool {
